@@ -39,6 +39,7 @@ def setup(ctx):
     ctx.require("monitor", "evictions_observed", 1)
     ctx.require("monitor", "projection_reruns", 20)
     ctx.require("monitor", "scheduled_histories", 20)
+    ctx.require("monitor", "wired_decisions", 30)
 
 
 class VTime:
@@ -255,7 +256,85 @@ RATES = [2.0, 1.0, 0.5, 0.25, 0.125, 1 / 64, 1 / 1024, 1 / 4096]
 GAPS = [0, 0.125, 1, 4, 301, 601, 1300]
 
 
+def run_wired(ctx):
+    """The limiter as the running server gets it: start_server wiring (captured) with the default
+    configuration (rate_limit_config=None), an explicit one, and TOML -> ServerConfig.get_rate_limit_config.
+    Bursts of connections from one address on one virtual clock; a second address is unaffected."""
+    import contextlib
+    import io
+    import os
+    import shutil
+    import tempfile
+    from pathlib import Path
+
+    from nauyaca.server import middleware as M
+    from nauyaca.server.config import ServerConfig
+    from nauyaca.server.middleware import RateLimitConfig
+
+    from vf import quiet_logs
+    from vf.sim import ServerSim, capture_factory
+
+    base = tempfile.mkdtemp(prefix="vf-c10w-")
+    try:
+        os.makedirs(os.path.join(base, "doc"))
+        with open(os.path.join(base, "doc", "index.gmi"), "w") as f:
+            f.write("# hi\n")
+        import tomli_w
+
+        toml = os.path.join(base, "rl.toml")
+        with open(toml, "wb") as f:
+            tomli_w.dump({"server": {"host": "127.0.0.1", "port": 1965, "document_root": os.path.join(base, "doc")}, "rate_limit": {"capacity": 3, "refill_rate": 0.5, "retry_after": 9}}, f)
+        sc_toml = ServerConfig.from_toml(Path(toml))
+        variants = [
+            ("default-config-none", dict(enable_rate_limiting=True), {"capacity": 10, "rate": 1.0, "retry_after": 30}),
+            ("explicit-config", dict(enable_rate_limiting=True, rate_limit_config=RateLimitConfig(capacity=4, refill_rate=0.25, retry_after=5)), {"capacity": 4, "rate": 0.25, "retry_after": 5}),
+            ("toml-as-main-does", dict(enable_rate_limiting=sc_toml.enable_rate_limiting, rate_limit_config=sc_toml.get_rate_limit_config()), {"capacity": 3, "rate": 0.5, "retry_after": 9}),
+        ]
+        for name, kw, cfg in variants:
+            loop = new_loop()
+            old_time = M.time
+            M.time = VTime(loop)
+            try:
+                with contextlib.redirect_stdout(io.StringIO()):
+                    cap = capture_factory(dict(kw, log_level="CRITICAL"), sc_toml if name.startswith("toml") else ServerConfig(host="127.0.0.1", port=1965, document_root=os.path.join(base, "doc")))
+                quiet_logs()
+                import asyncio as _a
+
+                _a.set_event_loop(loop)
+                events = [(0.0, ["198.51.100.7"] * (cfg["capacity"] + 4) + ["198.51.100.8"] * 2), (1.0, ["198.51.100.7"] * 3), (8.0, ["198.51.100.7"] * 6 + ["198.51.100.8"])]
+                decisions = []
+                for t, addrs in events:
+                    if t > loop.time():
+                        loop.sleep_until(t)
+                    for a in addrs:
+                        sim = ServerSim(cap["factory"], peername=(a, 40000), loop=loop)
+                        sim.start()
+                        sim.feed(b"gemini://localhost/index.gmi\r\n")
+                        loop.settle()
+                        stream = bytes(sim.transport.written)
+                        decisions.append((t, a, stream.startswith(b"20 "), stream.decode("latin-1")[:80] if not stream.startswith(b"20 ") else None))
+                exp = model(cfg, events)
+                ctx.count("monitor", "wired_decisions", len(decisions))
+                for idx, ((t, a, adm, resp), (eadm, margin)) in enumerate(zip(decisions, exp)):
+                    if adm != eadm:
+                        ctx.violation(f"{'over-admission' if adm else 'spurious-refusal'}:via=start_server:{name}",
+                                      f"through the start_server wiring ({name}) request #{idx} from {a} at t={t} was {'admitted' if adm else 'refused'}; the configured bucket has {float(margin + 1):.3f} tokens",
+                                      {"variant": name, "config": cfg, "events": [(t, len(x)) for t, x in events], "decisions": [(d[0], d[1], d[2]) for d in decisions]})
+                        break
+                    if not adm and (not resp.startswith("44 ") or str(cfg["retry_after"]) not in resp):
+                        ctx.violation(f"wrong-refusal-text:via=start_server:{name}", f"refusal {resp!r} does not carry the configured retry hint {cfg['retry_after']}", {"variant": name})
+                        break
+                ctx.case(("wired", name, tuple(d[2] for d in decisions)), True, sample={"variant": name, "config": cfg, "decisions": [d[2] for d in decisions]})
+            finally:
+                M.time = old_time
+                close_loop(loop)
+    finally:
+        shutil.rmtree(base, ignore_errors=True)
+
+
 def run(ctx):
+    if ctx.shard == 0:
+        run_wired(ctx)
     rng = ctx.rng("c10")
     k = 0
     # ---- exhaustive small scope
